@@ -13,12 +13,14 @@ From V Require Import lib.Verdict lib.Tree model.M_C07.
 Import ListNotations.
 Open Scope Z_scope.
 
-(** defect switch: [true] = what the code does today *)
+(** defect switch: [true] = the code before fixes/C08-1.patch, [false] = the code with it *)
 Record aflags := AFlags {
   f_depth_incr : bool   (* C08-1: after appendFillLastChild the layer number is incremented
-                           unconditionally (`depth++`) although the current layer may still be
-                           short of depthRepeat sub-trees (always so when repeatNumber = 0);
-                           off: the layer and position are re-read from the child count *)
+                           unconditionally (`if !db.Done() { depth++ }`) although the current layer
+                           may still be short of depthRepeat sub-trees (always so when
+                           repeatNumber = 0);
+                           off: the layer is re-read from the child count
+                           (`depth, _ = trickleDepthInfo(fsn, db.Maxlinks())`) *)
 }.
 Definition aflags_on := AFlags true.
 Definition aflags_off := AFlags false.
@@ -122,7 +124,7 @@ Section Append.
 
   (** where the "continue filling out tree like normal" loop starts *)
   Definition resume (s : nst) (d : Z) (cs : list D) : Z * Z :=
-    if f_depth_incr fl then ((if is_nil cs then d else d + 1), 0) else depth_info s.
+    if f_depth_incr fl then ((if is_nil cs then d else d + 1), 0) else (fst (depth_info s), 0).
 
   (** appendRec(fsn, db, maxDepth = m); fuel = levels of the existing tree still below *)
   Fixpoint append_rec (fuel : nat) (s : nst) (m : Z) (cs : list D) : option (nst * list D) :=
